@@ -312,6 +312,7 @@ class PropertyRun:
             'solver_s': round(solver_s, 2),
             'float_model': getattr(self.prop, 'FLOAT_MODEL', 'R (floats as reals)'),
             'vacuity': getattr(self, 'covers', {}),
+            'lemma_library': dict(lemma_library_status(), used={l: LEMMA_MAP.get(l, []) for l in sorted(lemmas)}),
             'proof_step_hints_not_discharged': n_hint_unused,
             'notes': self.notes,
             'undecided': self.undecided,
@@ -360,6 +361,39 @@ class PropertyRun:
                 print('  UNDECIDED: %s' % json.dumps(u, default=str)[:400])
             return 2
         return 0
+
+
+LEMMA_MAP = {
+    'L0.count_unfold': ['L0_count_unfold', 'L0_sum_unfold'],
+    'L1.fibre_sum(add.at)': ['L1_fibre_sum', 'L1_add_at_sum'],
+    'L3.partition_count': ['L3_partition_left', 'L3_partition_right', 'L3a_count_bounds', 'L3b_count_none', 'L3b_count_all', 'L3c_ge_le_eq'],
+    'L4.sum_congruence': ['L4_sum_congr', 'L4_sum_const'],
+    'L4.count_congruence': ['L4_count_congr'],
+    'L4.count_over_selection': ['L4_count_over_selection', 'L4_sum_over_selection'],
+    'L5.permutation_preserves_counts': ['L5_perm_cge', 'L5_perm_cle', 'L5_perm_ceq', 'L5_perm_sum'],
+}
+
+
+def lemma_library_status():
+    """is the Lean lemma library checked for the lemma files as they are now? (tools/build_lemmas.sh
+    writes lemmas/CHECKED.json with the sha256 of every file it checked)"""
+    import hashlib
+    d = os.path.join(VERIF, 'lemmas')
+    try:
+        with open(os.path.join(d, 'CHECKED.json')) as fh:
+            chk = json.load(fh)
+    except Exception:
+        return {'checked': False, 'reason': 'lemmas/CHECKED.json missing (run tools/build_lemmas.sh)'}
+    for fn, sha in chk.get('files', {}).items():
+        try:
+            with open(os.path.join(d, fn), 'rb') as fh:
+                cur = hashlib.sha256(fh.read()).hexdigest()
+        except Exception:
+            return {'checked': False, 'reason': fn + ' missing'}
+        if cur != sha:
+            return {'checked': False, 'reason': fn + ' changed since it was checked'}
+    return {'checked': bool(chk.get('ok')), 'lean': chk.get('lean'), 'theorems': len(chk.get('theorems', [])),
+            'files': chk.get('files')}
 
 
 _KNOWN = None
